@@ -823,25 +823,41 @@ def make_entry(entry: str, env: Env, ctor: dict, call: dict, breaker=None):
         deco_kw.update({k: v for k, v in call.items()
                         if k in ("on_metric", "on_log", "operation", "abort_if",
                                  "on_attempt_start", "on_attempt_end")})
+        # a function with positional and keyword arguments (and a default), decorated once and
+        # called many times
         if is_async:
-            async def target():
+            async def target(x, *, y=None, z=3):
+                assert (x, y, z) == (1, 2, 3)
                 return await env.aop()
         else:
-            def target():
+            def target(x, *, y=None, z=3):
+                assert (x, y, z) == (1, 2, 3)
                 return env.op()
         wrapped = rp.retry(**deco_kw)(target)
-        return lambda mode: wrapped()
+        return lambda mode: wrapped(1, y=2)
     else:
         raise AssertionError(entry)
     if entry.endswith(".context"):
+        # one context object, entered again for every run; the operation is passed with positional
+        # and keyword arguments
+        ctx_obj = obj.context(**call)
         if is_async:
+            async def aop_args(x, *, y=None):
+                assert (x, y) == (1, 2)
+                return await op()
+
             async def via_ctx(mode):
-                async with obj.context(**call) as r:
-                    return await r(op)
+                async with ctx_obj as r:
+                    return await r(aop_args, 1, y=2)
             return via_ctx
+
+        def op_args(x, *, y=None):
+            assert (x, y) == (1, 2)
+            return op()
+
         def via_ctx_sync(mode):
-            with obj.context(**call) as r:
-                return r(op)
+            with ctx_obj as r:
+                return r(op_args, 1, y=2)
         return via_ctx_sync
     return lambda mode: (obj.call if mode == "call" else obj.execute)(op, **call)
 
